@@ -26,6 +26,11 @@ FINDING_KEY = "chaiscript_eval.hpp:Ranged_For_AST_Node:element-reference"
 RS = {n: i for i, n in enumerate(["RValue", "RValueTrivial", "RCValue", "RRef", "RCRef", "RPtr", "RCPtr", "RPtrRef", "RCPtrRef", "RShared", "RSharedRef",
                                   "RSharedCRef", "RUnique", "RBoxed", "RCBoxed", "RBoxedRef", "RBoxedCRef", "RBoxedNumber", "RCBoxedNumber", "RVoid"])}
 
+# Data::m_return_value of a value returned with each shape (LifeDefs.spec_ret)
+SPEC_RV = {RS["RValue"]: True, RS["RValueTrivial"]: True, RS["RCValue"]: False, RS["RRef"]: False, RS["RCRef"]: True, RS["RPtr"]: True, RS["RCPtr"]: True,
+           RS["RPtrRef"]: True, RS["RCPtrRef"]: True, RS["RShared"]: True, RS["RSharedRef"]: True, RS["RSharedCRef"]: True, RS["RUnique"]: True,
+           RS["RBoxed"]: False, RS["RCBoxed"]: False, RS["RBoxedRef"]: False, RS["RBoxedCRef"]: False}
+
 # registered C++ functions that produce a Tracked: name -> (return shape, takes an argument?, makes a new object?)
 FACTORIES = {"make_value": "RValue", "make_cvalue": "RCValue", "make_sp": "RShared", "make_up": "RUnique"}
 REFFNS = {"ref_of": "RRef", "cref_of": "RCRef", "ptr_of": "RPtr", "cptr_of": "RCPtr", "sp_of": "RShared", "bv_of": "RBoxed", "copy_of": "RValue"}
@@ -183,9 +188,13 @@ class Exec:
         handle in the current call_params list (both parsers); its body is scopeless only with the optimizer, and then leaves
         the result handle there as well.  Inside the prelude's push_back (site="push_back") the unoptimised body has its own
         list, so nothing of the clone stays behind; the optimised one is scopeless and saves into the caller's list."""
-        bounce = self.calls == 0
+        # a real clone makes calls (Function_Push_Pop): pending conversion saves move to the current list, and when
+        # the call depth was 0 the list is cleared afterwards.  Whether a value is a return value is looked up in the
+        # specified flags here; the operation itself (HBind) decides from the flags of the run.
+        rv = v.data.rv if isinstance(v.data.rv, bool) else SPEC_RV[v.data.rv[1]]
+        bounce = not rv
         if bounce:
-            self.call_begin()          # the calls made by clone() go 0 -> 1 -> 0: the list is cleared afterwards
+            self.call_begin()
         self.emit(21, *self.rvcode(v.data))
         self.emit(v.path, dst)
         ss = sr = None
@@ -208,7 +217,7 @@ class Exec:
 
     def clone_saves(self, src, res_path):
         """same bookkeeping for the clone of a container (a new container sharing the element handles)"""
-        bounce = self.calls == 0
+        bounce = True
         if bounce:
             self.call_begin()
         self.save(src)
@@ -1399,6 +1408,9 @@ class Gen:
             self.declare(nm, SV("W", self.cur_region))
             self.feat("owner:new")
             return [("decl", nm, ("owner",))]
+        if self.rnd.random() < 0.35:
+            self.feat("owner:member-of-temporary")
+            return [("touch", ("attr", ("owner",), "inner"), self.pick(["get", "id", "set"]))]
         self.feat("owner:use")
         return [("touch", ("attr", ("var", self.pick(ows)[0]), "inner"), "get")]
 
@@ -1747,13 +1759,18 @@ def tuplify_arg(kind, i, a):
     return tuplify(a)
 
 
-def make_cases(tier, seed):
+def make_cases(tier, seed, part="all"):
     rnd0 = random.Random(seed * 7919 + 11)
     nprog = {"quick": 600, "thorough": 5000}[tier]
     nprobe = {"quick": 40, "thorough": 300}[tier]
     progs = []
-    for p in corpus_programs():
-        progs.append(("corpus", p, None))
+    if part in ("all", "corpus"):
+        for p in corpus_programs():
+            progs.append(("corpus", p, None))
+    if part == "corpus":
+        nprog = nprobe = 0
+    if part == "generated":
+        pass
     for i in range(nprog):
         rnd = random.Random(rnd0.getrandbits(48))
         g = Gen(rnd)
@@ -1865,11 +1882,22 @@ def check(tier, seed):
     except vlib.BuildError as ex:
         mbin = None
         c.broken_ties.append(("correspondence", "life: the mechanism model no longer builds from the regenerated ownership tables", str(ex)[-1500:]))
-    cases = make_cases(tier, seed)
     nchunks = max(2, min(5, vlib.NCPU // 3))      # sanitizer processes do not scale beyond a few per machine here
-    impl = chunked_parallel(lambda ch: run_impl(hbin, [x["script"] for x in ch], BULK_ENV), cases, nchunks)
-    spec = run_model(sbin, [x["ops"] for x in cases])
-    mech = run_model(mbin, [x["ops"] for x in cases]) if mbin else [None] * len(cases)
+    cases, impl, spec, mech = [], [], [], []
+    for part in ("corpus", "generated"):
+        # the regression corpus runs first; when it already exhibits failing inputs the generated programs are skipped
+        batch = make_cases(tier, seed, part)
+        cases += batch
+        impl += chunked_parallel(lambda ch: run_impl(hbin, [x["script"] for x in ch], BULK_ENV), batch, nchunks)
+        spec += run_model(sbin, [x["ops"] for x in batch])
+        mech += run_model(mbin, [x["ops"] for x in batch]) if mbin else [None] * len(batch)
+        if part == "corpus":
+            probe = vlib.Check("C11", tier, seed)
+            for case, i, s, m in zip(batch, impl, spec, mech):
+                judge(probe, case, i, s, m)
+            if len(probe.failures) >= 3:
+                c.extra["generated_programs_skipped"] = "the regression corpus already fails on %d programs" % len(probe.failures)
+                break
     seen = set()
     for case, i, s, m in zip(cases, impl, spec, mech):
         c.cov["evaluations"] += 1
